@@ -4,6 +4,7 @@ import (
 	"fmt"
 	"os"
 	"path/filepath"
+	"regexp"
 	"sort"
 	"strings"
 	"sync"
@@ -22,6 +23,7 @@ type mutant struct {
 	Benign bool
 	More   [][2]string // further (old, new) replacements in the same file
 	Also   [][3]string // further (file, old, new) replacements in other files
+	Rename [][3]string // (file, old identifier, new identifier): every whole-word occurrence is replaced
 }
 
 var mutants []mutant
@@ -55,10 +57,14 @@ func runMutant(c *Config, m mutant, base map[string]string) selfResult {
 		return selfResult{m, false, err.Error()}
 	}
 	src := string(b)
-	if n := strings.Count(src, m.Old); n != 1 {
+	if m.Old == "" && len(m.Rename) > 0 {
+		// rename-only mutant
+	} else if n := strings.Count(src, m.Old); n != 1 {
 		return selfResult{m, false, fmt.Sprintf("mutant does not apply: pattern occurs %d times in %s (the repository changed; update the mutant)", n, m.File)}
 	}
-	src = strings.Replace(src, m.Old, m.New, 1)
+	if m.Old != "" {
+		src = strings.Replace(src, m.Old, m.New, 1)
+	}
 	for _, e := range m.More {
 		if n := strings.Count(src, e[0]); n != 1 {
 			return selfResult{m, false, fmt.Sprintf("mutant does not apply: extra pattern occurs %d times in %s", n, m.File)}
@@ -82,6 +88,24 @@ func runMutant(c *Config, m mutant, base map[string]string) selfResult {
 			return selfResult{m, false, fmt.Sprintf("mutant does not apply: pattern occurs %d times in %s", n, e[0])}
 		}
 		ov[p2] = []byte(strings.Replace(cur, e[1], e[2], 1))
+	}
+	for _, e := range m.Rename {
+		p2 := filepath.Join(c.Repo, e[0])
+		var cur string
+		if b2, ok := ov[p2]; ok {
+			cur = string(b2)
+		} else {
+			b2, err := os.ReadFile(p2)
+			if err != nil {
+				return selfResult{m, false, err.Error()}
+			}
+			cur = string(b2)
+		}
+		re := regexp.MustCompile(`\b` + regexp.QuoteMeta(e[1]) + `\b`)
+		if !re.MatchString(cur) {
+			return selfResult{m, false, "rename does not apply: " + e[1] + " not found in " + e[0]}
+		}
+		ov[p2] = []byte(re.ReplaceAllString(cur, e[2]))
 	}
 	mc := &Config{Repo: c.Repo, Verif: c.Verif, Tier: "quick", Quiet: true, Overlay: ov}
 	r := runProp(mc, m.Prop)
